@@ -48,7 +48,7 @@ def equal_up_to_phase(a, b):
     return bool(abs(abs(ph) - 1) < 1e-9 and np.allclose(a, ph * b, atol=1e-9))
 
 
-def frame_of_wrapper(S, spec, gate_classes, reg_type="e"):
+def frame_of_wrapper(S, spec, gate_classes, reg_type="e", single_noise=False):
     """run the real stabilizer compile of a wrapper on the symbolic one-qubit tableau; return post rows"""
     import graphiq.circuit.ops as ops
     from graphiq.backends.stabilizer.compiler import StabilizerCompiler
@@ -58,7 +58,13 @@ def frame_of_wrapper(S, spec, gate_classes, reg_type="e"):
     T = fresh_clifford(spec)
     state = QuantumState(data=T, rep_type="s", mixed=False)
     comp = StabilizerCompiler()
-    w = ops.OneQubitGateWrapper(list(gate_classes), register=0, reg_type=reg_type)
+    if single_noise:
+        # ONE noise model for the whole wrapper (what a noise map with an "OneQubitGateWrapper" key produces): unwrap()
+        # takes a different branch and inserts an Identity carrying the noise; with noise simulation off nothing else changes
+        import graphiq.noise.noise_models as nm
+        w = ops.OneQubitGateWrapper(list(gate_classes), register=0, reg_type=reg_type, noise=nm.PauliError("X"))
+    else:
+        w = ops.OneQubitGateWrapper(list(gate_classes), register=0, reg_type=reg_type)
     q_index = CompilerBase.reg_to_index_func(1 if reg_type == "p" else 0)
     creg = np.zeros(1)
     for sub in w.unwrap():
@@ -95,7 +101,7 @@ class Library(Harness):
         frames = []
         for gi, g in enumerate(lib):
             names = [NAME[c.__name__] for c in g]
-            fr = frame_of_wrapper(S, spec, g, reg_type=self.reg_type)
+            fr = frame_of_wrapper(S, spec, g, reg_type=self.reg_type, single_noise=bool(getattr(self, "single_noise", 0)))
             frames.append(fr)
             want = oracle_frame(rows, names)
             S.prove(f"stabilizer-backend-applies-last-listed-first[{gi}]", b_and(*[O.row_eq(a, b) for a, b in zip(fr, want)]))
@@ -183,10 +189,37 @@ class DmOrder(Harness):
             S.prove("non-unitary-rejected", False)
         except ValueError:
             S.prove("non-unitary-rejected", True)
+        # concrete negative twins around EVERY library member C: small rotations of C, rescaled C, C plus a
+        # perturbation, sheared C.  (A symbolic 2x2 complex matrix was tried: z3 does not decide 'M is numerically
+        # unitary' -- QF_NRA in 8 reals with tolerances -- within minutes, so this clause stays concrete.)
+        def rz(t):
+            return np.diag([np.exp(-1j * t / 2), np.exp(1j * t / 2)])
+
+        def rx(t):
+            return np.array([[np.cos(t / 2), -1j * np.sin(t / 2)], [-1j * np.sin(t / 2), np.cos(t / 2)]])
+
+        shear = np.array([[1.0, 0.7], [0.0, 1.0]])
+        bad = 0
+        total = 0
+        for gi, g in enumerate(lib):
+            C = np.asarray(ops.local_clifford_to_matrix_map(g), dtype=complex)
+            variants = [C @ rz(1e-2), C @ rz(3e-3), C @ rx(1e-2), rx(5e-3) @ C, 2.0 * C, 0.5 * C, C + 0.4 * O.Z, shear @ C,
+                        C @ np.diag([1.0, np.exp(1j * np.pi / 4)]), np.ones((2, 2)) + 0 * C]
+            for vi, m in enumerate(variants):
+                total += 1
+                try:
+                    ops.find_local_clifford_by_matrix(m)
+                    bad += 1
+                    S.prove(f"non-clifford-variant-rejected[{gi},{vi}]", False)
+                except ValueError:
+                    pass
+        S.prove("all-non-clifford-variants-rejected", bad == 0, detail=f"{bad} of {total} accepted")
 
 
 def plan(tier):
     q = tier == "quick"
     jobs = [(Library(part="distinct", reg_type="e"), {}), (Library(part="closure", reg_type="e"), {}),
-            (Library(part="distinct", reg_type="p"), {}), (Words(maxlen=2 if q else 3), {}), (DmOrder(), {})]
+            (Library(part="distinct", reg_type="p"), {}), (Words(maxlen=2 if q else 3), {}), (DmOrder(), {}),
+            (Library(part="order", reg_type="e", single_noise=1), {}), (Library(part="order", reg_type="p", single_noise=1), {}),
+            ]
     return jobs
